@@ -47,6 +47,24 @@ def run(tier):
             nd = max(dev, 5)          # re-pointing yyin, a push from an action and the pop at its end already take five deviations together
             kn = {"VF_BUDGET_DEFAULT": nd, "VF_BUDGET_TOTAL": nd, "VF_CALLMASK": MASK, "VF_MAX_OPS": 2, "VF_ACTION_PUSH": 1, "VF_READ_ONE": 1}
             jobs.append(BH.make_job(api, a, kn, "eof-nested-%s-%d" % (api, asg.index(a)), sources=srcs))
+    # the manual's older multiple-buffer idiom - at the end of an included source, yy_delete_buffer(YY_CURRENT_BUFFER) and
+    # yy_switch_to_buffer(saved) from yywrap() or from the <<EOF>> action - resuming a buffer that was left partly consumed
+    # (round-4 seed C10-r4m1), and in-memory sources (yy_scan_string/bytes) continued with yyrestart / a new yyin, which is also what
+    # yylex() does itself when yywrap() returns 0 at the end of a string (round-4 seed C10-r4m2)
+    MASK_SAVED = MASK | (1 << 1) | (1 << 4)
+    MASK_MEM = MASK | (1 << 7) | (1 << 8)
+    for api in ("NR", "R", "C99"):
+        for a in ([], [None], [["A"], None]):
+            for ro in (None, 1):
+                nd = 3 if quick else 5
+                kn = {"VF_BUDGET_DEFAULT": nd, "VF_BUDGET_TOTAL": nd, "VF_CALLMASK": MASK_SAVED, "VF_MAX_OPS": 2, "VF_SAVED_SWITCH": 1}
+                if ro:
+                    kn["VF_READ_ONE"] = ro
+                jobs.append(BH.make_job(api, a, kn, "eof-saved-%s-%d-%s" % (api, len(a), ro), sources=srcs))
+                kn = {"VF_BUDGET_DEFAULT": nd, "VF_BUDGET_TOTAL": nd, "VF_CALLMASK": MASK_MEM, "VF_MAX_OPS": 3, "VF_RESTART_MEM": 1}
+                if ro:
+                    kn["VF_READ_ONE"] = ro
+                jobs.append(BH.make_job(api, a, kn, "eof-mem-%s-%d-%s" % (api, len(a), ro), sources=srcs))
     # full and fast tables take other end-of-buffer paths
     for fa in (["-Cf"], ["-CFe"], ["-B"]):
         kn = {"VF_BUDGET_DEFAULT": dev, "VF_BUDGET_TOTAL": dev, "VF_CALLMASK": MASK, "VF_MAX_OPS": 2, "VF_READ_ONE": 1}
@@ -74,7 +92,7 @@ def run(tier):
             tot[k] += sm.get(k, 0)
         for i, n in enumerate(sm.get("calls", [])):
             calls[i] += n
-        if sm["overflow"]:
+        if sm.get("overflow") or sm.get("aborted"):
             ck.exhaustive = False
         for v in res["viols"]:
             ck.violation("C10:%s:%s" % (job["groups"][0].label, v.get("what", v.get("msg", v["viol"]))),
@@ -82,7 +100,7 @@ def run(tier):
                              job["groups"][0].label, job["tag"], v.get("history"), v.get("what", v.get("msg")), v.get("exp"), v.get("obs"), v.get("sc")),
                          case={"cmd": v["cmd"], "viol": {k: v[k] for k in v if k not in ("spec", "tables", "cmd")}},
                          files={"s.l": v["spec"], "s_tables.h": v["tables"]})
-        ck.sample({"job": job["tag"], "eof_rules": str(job["groups"][0].label), "executions": sm["executions"], "eof_actions": sm["eof_actions"]})
+        ck.sample({"job": job["tag"], "eof_rules": str(job["groups"][0].label), "executions": sm["executions"], "eof_actions": sm.get("eof_actions")})
     # C++ scanners with the stock LexerInput() over std::istream: every sequence of <= 3 (thorough 4) re-supply operations after end of input
     from .. import cxxstream
     cxx_cases = 0
@@ -106,7 +124,7 @@ def run(tier):
     ck.assumptions += ["calling yylex() again after termination without a new source is undefined in the manual and not generated for C scanners; for C++ "
                        "streams it is (the stream simply stays at end of file: the EOF action runs again, no token)",
                        "an unqualified <<EOF>> rule is placed after the qualified ones (the manual's 'do not already have' is order dependent)",
-                       "giving an in-memory buffer a new yyin / yyrestart is not described by the manual and not generated"]
+                       "giving a user array (yy_scan_buffer) a new yyin / yyrestart is not described by the manual and not generated"]
     ck.guard(tot["executions"] > 20000, "too few executions: %d" % tot["executions"])
     ck.guard(tot["eof_actions"] > 1000 and tot["yywraps"] > 1000, "EOF paths hardly exercised")
     ck.guard(calls[11] > 0 and calls[12] > 0, "restart / new yyin never exercised")
